@@ -351,7 +351,7 @@ class idrs {
                     // Smoothing
                     if (prm.smoothing) {
                         backend::axpbypcz(one, *r_s, -one, *r, zero, *t);
-                        coef_type gamma = inner_product(*t, *r_s) / inner_product(*t, *t);
+                        coef_type gamma = inner_product(*r_s, *t) / inner_product(*t, *t);
                         backend::axpby(-gamma, *t, one, *r_s);
                         backend::axpbypcz(-gamma, *x_s, gamma, x, one, *x_s);
                         res_norm = norm(*r_s);
@@ -389,7 +389,7 @@ class idrs {
                 // Smoothing.
                 if (prm.smoothing) {
                     backend::axpbypcz(one, *r_s, -one, *r, zero, *t);
-                    coef_type gamma = inner_product(*t, *r_s) / inner_product(*t, *t);
+                    coef_type gamma = inner_product(*r_s, *t) / inner_product(*t, *t);
                     backend::axpby(-gamma, *t, one, *r_s);
                     backend::axpbypcz(-gamma, *x_s, gamma, x, one, *x_s);
                     res_norm = norm(*r_s);
@@ -476,7 +476,7 @@ class idrs {
             scalar_type norm_t = norm(t);
             scalar_type norm_s = norm(s);
 
-            coef_type   ts  = inner_product(t, s);
+            coef_type   ts  = inner_product(s, t);
             scalar_type rho = math::norm(ts / (norm_t * norm_s));
             coef_type   om  = ts / (norm_t * norm_t);
 
